@@ -43,6 +43,7 @@ def part_case(draw, accessor=False, threaded=False):
         ihmax=draw(st.sampled_from(IHS)), rel=draw(st.sampled_from([-3, -2, -1, 0, 0, 1, 3])),
         method=draw(st.sampled_from(["ptm1", "ptm2", "ptm3"])), smooth=False if threaded else draw(st.booleans()) if accessor else False,
         threads=draw(st.sampled_from([4, 8, 16])) if threaded else 0,
+        pre=draw(st.one_of(st.none(), st.none(), st.integers(0, 7))),
     )
 
 
@@ -87,9 +88,26 @@ def check_np(case, ctx):
     E = np.ascontiguousarray(E)
     w = case["winds"][0]
     ih = case["ihmax"]
+    pre = case.get("pre")
+    if pre is not None:
+        # the routine has been used on another grid before (same number of bins where the grid allows it, so that
+        # whatever it keeps between calls and sizes by the bin count would be reused): the statement holds regardless
+        n = E.size
+        pairs = [(a_, n // a_) for a_ in range(1, n + 1) if n % a_ == 0 and (a_, n // a_) != E.shape] or [(E.shape[1], E.shape[0])]
+        shp = pairs[pre % len(pairs)]
+        with ctx.lib("specpart.partition on a %dx%d grid first" % shp):
+            specpart.partition(gen.build_spectrum(case["specs"][0], shp[0], shp[1], dtype=np.float32), ih)
+        ctx.label("other-shape-first")
     with ctx.lib("specpart.partition"):
         wmap = np.asarray(specpart.partition(np.ascontiguousarray(E, dtype=np.float32), ih))
     detected = int(wmap.max())
+    # "as many as the watershed detects" is a property of the spectrum: regional maxima of its discretised levels,
+    # counted independently of the routine
+    from ..ref import watershed as W
+
+    why, nref = W.check_map(np.ascontiguousarray(E, dtype=np.float32), ih, wmap)
+    if why is not None:
+        raise Violation("watershed-map", "the label map behind the partitions is not the watershed of the spectrum: %s (%d labels, %d regional maxima) on a %dx%d grid" % (why, detected, nref, E.shape[0], E.shape[1]))
     req = max(0 if case["method"] != "ptm3" else 1, detected + case["rel"])
     method = case["method"]
     with ctx.lib("np_%s" % method):
